@@ -550,7 +550,9 @@ func (e *env) runPert(s Shape, p pert, baseHash types.Hash) {
 				s.Name(), p.Name, reason, fileGen != nil, fileErr)
 		default:
 			r.Count("pert_rejected", 1)
-			r.Add("rejected_classes", p.Class+"/"+reason)
+			if r.Add("rejected_classes", p.Class+"/"+reason) && e.c.Shard == 0 && len(r.Samples) < 2 {
+				r.Sample(map[string]interface{}{"configuration": s.Name(), "edit": p.Name, "class": p.Class, "predicate": reason, "CheckGenesis": err.Error()})
+			}
 		}
 		switch {
 		case filePan != nil:
@@ -637,7 +639,12 @@ func pairConfigs() []namedCfg {
 			c.SwapConfig.Entries[0].Znn.Add(c.SwapConfig.Entries[0].Znn, bi(1))
 			return c
 		}},
-		{"spork-admin-changed", func() *genesis.GenesisConfig { c := base(); a := addrOf("other-spork-admin"); c.SporkAddress = &a; return c }},
+		{"spork-admin-changed", func() *genesis.GenesisConfig {
+			c := base()
+			a := addrOf("other-spork-admin")
+			c.SporkAddress = &a
+			return c
+		}},
 		{"other-shape", func() *genesis.GenesisConfig { return build(pairShapeB) }},
 	}
 }
@@ -645,7 +652,7 @@ func pairConfigs() []namedCfg {
 func (e *env) runPair(a, b namedCfg, height int) {
 	r := e.r
 	cs := Case{Kind: "pair", A: a.Name, B: b.Name, H: height}
-	pair := fmt.Sprintf("%s->%s@h%d", a.Name, b.Name, height)
+	pair := fmt.Sprintf("%s->%s", a.Name, b.Name)
 	r.Count("pair_evals", 1)
 	da, err := quickDigest(a.Cfg())
 	if err != nil {
@@ -695,10 +702,10 @@ func (e *env) runPair(a, b namedCfg, height int) {
 		e.violate(cs, "start-panics:"+pair, "chain.Init panicked: %v", panB)
 		return
 	case same && errB != nil:
-		e.violate(cs, "start-refused-on-own-store:"+pair, "store created with %s (genesis %v); start with %s (same genesis hash) fails: %v", a.Name, da.Hash, b.Name, errB)
+		e.violate(cs, "start-refused-on-own-store:"+pair, "store created with %s (genesis %v, height %d); start with %s (same genesis hash) fails: %v", a.Name, da.Hash, height, b.Name, errB)
 		return
 	case !same && errB == nil:
-		e.violate(cs, "start-accepted-on-foreign-store:"+pair, "store created with %s (genesis %v); start with %s (genesis %v) succeeds", a.Name, da.Hash, b.Name, dbb.Hash)
+		e.violate(cs, "start-accepted-on-foreign-store:"+pair, "store created with %s (genesis %v, height %d); start with %s (genesis %v) succeeds", a.Name, da.Hash, height, b.Name, dbb.Hash)
 		return
 	}
 	if same {
@@ -709,7 +716,9 @@ func (e *env) runPair(a, b namedCfg, height int) {
 		}
 	} else {
 		r.Count("pair_refused", 1)
-		r.Add("refusal_messages", errB.Error())
+		if r.Add("refusal_messages", errB.Error()) && e.c.Shard == 0 {
+			r.Sample(map[string]interface{}{"store_created_with": a.Name, "started_with": b.Name, "height": height, "hash_a": da.Hash.String(), "hash_b": dbb.Hash.String(), "init_error": errB.Error()})
+		}
 	}
 	if after != before {
 		e.violate(cs, "store-modified-by-start:"+pair, "store of %s (%d keys, digest %s) has digest %s after a start with %s (refused=%v)", a.Name, nkeys, before, after, b.Name, errB != nil)
@@ -955,7 +964,7 @@ func init() {
 			"database pairs: 9 configurations (base, same with all lists reversed, and 7 that differ in one field or in shape), all 81 ordered pairs, stores at height 1 (chain.Init only) and at height 3 (a real node produced two momentums); 'untouched' is judged on key/value content, not on leveldb's file bytes (opening a leveldb rewrites its manifest and log files)",
 			"process globals: loggers silenced and common.Clock replaced by the harness clock (vnode.Quiet); chain.Init sets types.SporkAddress; spork ids and ImplementedSporksMap are left at their defaults; no configuration activates a spork that is not implemented (chain.Init would os.Exit)",
 		},
-		Rule: "accept <=> reference: (a) one genesis hash/content/change-set/raw-store per configuration over all orders, encodings and processes; (b) CheckGenesis / ReadGenesisConfigFromFile reject every perturbed configuration the independent sum predicate calls inconsistent; (c) chain.Init on a store created with A under configuration B fails iff hash(A) != hash(B) and leaves every key of the store unchanged",
+		Rule: "cases are enumerated, never sampled: every generated configuration x (3 rebuilds, every permutation of each order-free list, all lists reversed/rotated, JSON and genesis-file round trip, store built in this and in child processes) x every single-entry perturbation; every ordered pair of 9 configurations x store heights {1,3}. Oracle (accept <=> reference): (a) one genesis hash/content/change-set/raw-store per configuration over all orders, encodings and processes, and the store answers what the configuration says; (b) CheckGenesis / ReadGenesisConfigFromFile reject every perturbed configuration the independent sum predicate calls inconsistent; (c) chain.Init on a store created with A under configuration B fails iff hash(A) != hash(B) and leaves every key of the store unchanged. distinct_nontrivial = distinct genesis hashes of generated configurations + distinct (perturbation class, inconsistency reason) pairs that were rejected + (A, B, height) store pairs decided (refused or accepted); re-evaluations of the same configuration in another order/process are not counted as distinct",
 		Run:  runC20,
 		Finish: func(tier string, m *xs.Result, ev *xs.Evidence) {
 			cnt := m.Counters
